@@ -325,7 +325,11 @@ class DiffXReader(object):
 
                 self._file_newlines = b'\n'
 
-        assert header.endswith(self._file_newlines)
+        if not header.endswith(self._file_newlines):
+            raise DiffXParseError(
+                'Unexpected or improperly formatted header: %r' % header,
+                linenum=linenum)
+
         header = header[:-len(self._file_newlines)]
 
         m = self._HEADER_RE.match(header)
